@@ -409,3 +409,53 @@ specialise(
     bounds="delivery channel fixed per instance: path (in-memory file table behind pathlib), bytes, BytesIO, text; Markdown content concrete",
     weight=30,
 )
+
+
+# ---- b': the xlsx sheet reader above a model of the openpyxl worksheet API ------------------------
+class _FakeSheet:
+    """environment model of openpyxl's read-only worksheet: `.rows` iterates tuples of cells,
+    `.iter_rows(min_row, max_col)` yields rows from `min_row` (1-based) cut to `max_col` cells
+    (openpyxl documentation)."""
+
+    def __init__(self, grid):
+        self.grid = grid
+
+    @property
+    def rows(self):
+        return iter([tuple(Cell(v) for v in r) for r in self.grid])
+
+    def iter_rows(self, min_row=1, max_col=None):
+        for r in self.grid[min_row - 1 :]:
+            cells = tuple(Cell(v) for v in r)
+            yield cells if max_col is None else cells[:max_col]
+
+
+_XLSX_SHEET = _nested(B.xlsx_to_dict, "xlsx_to_dict_normal_sheet", {"xlsx_clean_cell": _XLSX_CLEAN})
+
+
+def c12_xlsx_sheet(e1: int, lead: int, c0: int, c1: int) -> bool:
+    """
+    vpre: 33 <= c0 <= 126 and 33 <= c1 <= 126
+    vpost: _ == True
+    """
+    t = S(c0, c1)
+    header = [None] * lead + ["type"] + [None] * e1 + ["name", "label"]
+    row1 = [None] * lead + ["text"] + [None] * e1 + ["q1", t]
+    row2 = [None] * lead + ["note"] + [None] * e1 + ["q2", None]
+    rows, hdr = _XLSX_SHEET(_FakeSheet([header, row1, row2]))
+    return rows == [{"type": "text", "name": "q1", "label": t}, {"type": "note", "name": "q2"}] and hdr == [{"type": None, "name": None, "label": None}]
+
+
+specialise(
+    "C12",
+    "b.xlsx-sheet",
+    c12_xlsx_sheet,
+    {"e1": [0, 1, 3, 20], "lead": [0, 1]},
+    reach_if=lambda fx: fx["e1"] == 0 and fx["lead"] == 0,
+    timeout=200,
+    kernel=("pyxform.xls2json_backends:xlsx_to_dict", "pyxform.xls2json_backends:get_excel_column_headers", "pyxform.xls2json_backends:get_excel_rows"),
+    shims=("S7-sheet",),
+    symbolic="a label cell of 2 symbolic printable characters in the last column",
+    bounds="empty header columns between / before the data columns fixed per instance (0, 1, 3, 20 interior; 0-1 leading); the worksheet is a model of the openpyxl API (container parsing itself is outside the claim)",
+    weight=10,
+)
